@@ -1,0 +1,61 @@
+//go:build verif
+
+// Contracts for the verification machinery in /verif (comment-only; excluded from normal builds).
+// Property C18. Mode bv: int32/int64/uint32 are exact-width bit-vectors.
+
+package pcrel
+
+//@ spec (define-fun sx12 ((x (_ BitVec 32))) (_ BitVec 32) ((_ sign_extend 20) ((_ extract 11 0) x)))
+//@ spec (define-fun f20  ((x (_ BitVec 32))) (_ BitVec 32) (bvand x #x000fffff))
+//@ ; RISC-V auipc+addi as the CPU sees the two encoded fields (32-bit offset arithmetic):
+//@ spec (define-fun rv_pair ((hi (_ BitVec 32)) (lo (_ BitVec 32))) (_ BitVec 32)
+//@        (bvadd (bvshl (f20 hi) #x0000000c) (sx12 lo)))
+//@ ; LoongArch pcalau12i rd,si20 ; addi.d rd,rd,si12  (manual vol.1: pcalau12i, addi.d)
+//@ spec (define-fun la_cpu ((pc (_ BitVec 64)) (si20 (_ BitVec 20)) (si12 (_ BitVec 12))) (_ BitVec 64)
+//@        (bvadd (bvand (bvadd pc ((_ sign_extend 32) (concat si20 #x000))) (bvnot #x0000000000000fff))
+//@               ((_ sign_extend 52) si12)))
+//@ ; exact reach of the pair: (target - page(pc)) + 0x800 in [-2^31, 2^31)
+//@ spec (define-fun la_in_range ((target (_ BitVec 64)) (pc (_ BitVec 64))) Bool
+//@        (let ((d (bvadd (bvsub target (bvand pc (bvnot #x0000000000000fff))) #x0000000000000800)))
+//@          (and (bvsge d #xffffffff80000000) (bvslt d #x0000000080000000))))
+
+//@ func CombineOffset
+//@   transparent
+
+//@ func SplitOffset
+//@   ensures (hiCorr << 12) + loSigned == delta
+//@   ensures -2048 <= loSigned && loSigned <= 2047
+//@   ensures rv_pair(hiCorr, loSigned) == delta
+//@   ensures -(1 << 19) <= hiCorr && hiCorr <= (1 << 19)
+//@   ensures CombineOffset(hiCorr, loSigned) == delta
+//@   property C18
+
+//@ func MakeAbs
+//@   ensures rv_pair(pcrel_hi, pcrel_lo) == int32(targetAddress)
+//@   ensures -2048 <= pcrel_lo && pcrel_lo <= 2047
+//@   property C18
+
+//@ func MakePCRel
+//@   ensures rv_pair(pcrel_hi, pcrel_lo) == int32(targetAddress - pc)
+//@   ensures -2048 <= pcrel_lo && pcrel_lo <= 2047
+//@   ensures CombineOffset(pcrel_hi, pcrel_lo) == int32(targetAddress - pc)
+//@   property C18
+
+//@ func GetTargetAddress
+//@   ensures targetAddress == pc + uint32(CombineOffset(pcrel_hi, pcrel_lo))
+//@   property C18
+
+//@ lemma rv_pcrel_roundtrip
+//@   forall target, pc int64
+//@   assume -(1 << 31) <= target - pc && target - pc < (1 << 31)
+//@   assume 0 <= pc && pc < (1 << 32)
+//@   let hi, lo := MakePCRel(target, pc)
+//@   assert GetTargetAddress(uint32(pc), hi, lo) == uint32(target)
+//@   property C18
+
+//@ func MakeLa64PCRel
+//@   requires la_in_range(targetAddress, pc)
+//@   ensures  la_cpu(pc, bits(pc_hi20, 19, 0), bits(pc_lo12, 11, 0)) == targetAddress
+//@   ensures  0 <= pc_hi20 && pc_hi20 < (1 << 20)
+//@   ensures  0 <= pc_lo12 && pc_lo12 < (1 << 12)
+//@   property C18
